@@ -26,6 +26,10 @@ with the C38 model of weights.go / coinGenerator.go).  Cryptography is a paramet
                                       (`positions_determined`: the list is a function of the coins; C38 bounds its length),
                                       and nothing here is probabilistic.
   * `round_same_period_accepted` FULL  a round in the SAME key period is not distinguishable (as coded).
+  * `ledger_context`            FULL  ValidateStateProof accepts iff enabled ∧ attested round on the interval grid ∧
+                                      signedWeight ≥ acceptable weight ∧ the verifier built from (votersCommitment,
+                                      onlineTotalWeight·threshold/2^32, strengthTarget) accepts at lastAttestedRound;
+                                      `acceptableWeight_bounds`: provenWeight ≤ acceptable weight ≤ total.
   * `soundness_probabilistic_Statement`  NOT PROVED (stated only): a proof backed by less than the proven weight is accepted
                                       with probability ≤ 2^-strength over the random oracle H.
 -/
@@ -681,6 +685,88 @@ theorem tamper_rejected_partial (E : Env S RS PS RP PP) (b : Prover S) (hwf : WF
    fun ps' hl hn => tamper_positions E b hwf leaves hleaves hsS hsP v hv round data s hc hok ps' hl hn⟩
 
 
+/-! ### the ledger context (stateproof/verify) -/
+
+/-- **Ledger context.**  `ValidateStateProof` accepts exactly when state proofs are enabled, the attested round is on the
+interval grid, the proof's signed weight reaches the acceptable weight for the round at which it is validated, and the
+CRYPTOGRAPHIC verifier — built from the context's voters commitment, the proven weight
+`onlineTotalWeight · threshold / 2^32` of the attested interval and the protocol's strength target — accepts the proof for
+the message hash at the last attested round.  (So all theorems above apply to ledger-validated proofs with
+`v = ⟨strengthTarget, ln provenWeight, votersCommitment⟩` and `round = lastAttestedRound`.) -/
+theorem ledger_context (E : Env S RS PS RP PP) (ln : Nat → Nat) (ctx : LedgerCtx RP) (s : StateProof S RS PS PP)
+    (atRound msgHash : Nat) :
+    validateStateProof E ln ctx s atRound msgHash = .ok () ↔
+      ctx.interval ≠ 0 ∧ ctx.lastAttestedRound % ctx.interval = 0 ∧
+      acceptableWeight ctx.onlineTotalWeight ctx.interval ctx.weightThreshold ctx.lastAttestedRound atRound ≤ s.signedWeight ∧
+      ∃ pw, muldiv ctx.onlineTotalWeight ctx.weightThreshold (2 ^ 32) = some pw ∧ pw ≠ 0 ∧
+        verify E ⟨ctx.strengthTarget, ln pw, ctx.votersCommitment⟩ ctx.lastAttestedRound msgHash s = .ok () := by
+  unfold validateStateProof
+  by_cases h1 : ctx.interval = 0
+  · simp [h1]
+  rw [if_neg h1]
+  by_cases h2 : ctx.lastAttestedRound % ctx.interval ≠ 0
+  · rw [if_pos h2]; constructor
+    · intro h; cases h
+    · rintro ⟨_, h, _⟩; exact absurd h h2
+  rw [if_neg h2]
+  have h2' : ctx.lastAttestedRound % ctx.interval = 0 := by omega
+  by_cases h3 : s.signedWeight <
+      acceptableWeight ctx.onlineTotalWeight ctx.interval ctx.weightThreshold ctx.lastAttestedRound atRound
+  · rw [if_pos h3]; constructor
+    · intro h; cases h
+    · rintro ⟨_, _, h, _⟩; omega
+  rw [if_neg h3]
+  cases hm : muldiv ctx.onlineTotalWeight ctx.weightThreshold (2 ^ 32) with
+  | none => simp
+  | some pw =>
+    simp only [Option.some.injEq, exists_eq_left']
+    by_cases h4 : pw = 0
+    · simp [h4]
+    rw [if_neg h4]
+    cases hv : verify E ⟨ctx.strengthTarget, ln pw, ctx.votersCommitment⟩ ctx.lastAttestedRound msgHash s with
+    | error e => simp
+    | ok u => simp only [true_iff]; exact ⟨h1, h2', by omega, h4, trivial⟩
+
+/-- the acceptable weight never drops below the proven weight and never exceeds the online total (uint64 inputs,
+threshold a fraction of 2^32): the ledger never accepts a proof whose signed weight is below the proven weight -/
+theorem acceptableWeight_bounds (total interval threshold lastAttested firstValid : Nat)
+    (ht : total < two64) (hthr : threshold < 2 ^ 32) :
+    total * threshold / 2 ^ 32 ≤ acceptableWeight total interval threshold lastAttested firstValid ∧
+      acceptableWeight total interval threshold lastAttested firstValid ≤ total := by
+  have hpw : total * threshold / 2 ^ 32 ≤ total := by
+    apply Nat.div_le_of_le_mul
+    calc total * threshold ≤ total * 2 ^ 32 := Nat.mul_le_mul_left _ (Nat.le_of_lt hthr)
+      _ = 2 ^ 32 * total := Nat.mul_comm _ _
+  have hmd : muldiv total threshold (2 ^ 32) = some (total * threshold / 2 ^ 32) := by
+    unfold muldiv
+    rw [if_neg (by decide), if_neg (by omega)]
+  unfold acceptableWeight
+  simp only [hmd]
+  split
+  · exact ⟨hpw, Nat.le_refl _⟩
+  split
+  · exact ⟨hpw, Nat.le_refl _⟩
+  rw [if_neg (by omega)]
+  split
+  · exact ⟨Nat.le_refl _, hpw⟩
+  rename_i hoff1 hoff2 hlt
+  -- the ramp: scaled = (total - pw)·(half - off)/half ≤ total - pw
+  have hhalf : 0 < interval / 2 := by omega
+  have hscaled : (total - total * threshold / 2 ^ 32) * (interval / 2 - (firstValid - lastAttested - interval / 2)) /
+      (interval / 2) ≤ total - total * threshold / 2 ^ 32 := by
+    apply Nat.div_le_of_le_mul
+    rw [Nat.mul_comm]
+    exact Nat.mul_le_mul_right _ (Nat.sub_le _ _)
+  obtain ⟨scaled, hsc, hle⟩ : ∃ scaled, muldiv (total - total * threshold / 2 ^ 32)
+      (interval / 2 - (firstValid - lastAttested - interval / 2)) (interval / 2) = some scaled ∧
+      scaled ≤ total - total * threshold / 2 ^ 32 := by
+    refine ⟨_, ?_, hscaled⟩
+    unfold muldiv
+    rw [if_neg (by omega), if_neg (by omega)]
+  simp only [hsc]
+  rw [if_neg (by omega)]
+  omega
+
 /-! ### the probabilistic half — STATED, NOT PROVED -/
 
 /-- **Not proved.**  The arithmetic heart of "a proof backed by insufficient weight passes only with probability
@@ -817,5 +903,15 @@ example : ∃ leaves, slotLeaves exEnv.ss (commitSigs exProver.sigs) = some leav
 example : Cum 0 (commitSigs exProver.sigs) ∧ totalW (commitSigs exProver.sigs) = 5 ∧
     coinIndex (commitSigs exProver.sigs) 3 = .ok 2 ∧ coinIndex (commitSigs exProver.sigs) 2 = .ok 0 :=
   ⟨commitSigs_cum _ exProver_wf.L0 exProver_wf.bound, by decide, by decide, by decide⟩
+
+example : acceptableWeight 1000 16 1288490188 32 32 = 1000 ∧ acceptableWeight 1000 16 1288490188 32 40 = 1000 ∧
+    acceptableWeight 1000 16 1288490188 32 44 = 649 ∧ acceptableWeight 1000 16 1288490188 32 48 = 299 := by decide
+
+/-- `ledger_context` on the example: total weight 5, threshold 2^31 (50 %) gives proven weight 2 as in `exProver` -/
+example : validateStateProof exEnv (fun _ => 45427) ⟨32, exV.partCommit, 5, 16, 2 ^ 31, 4⟩ exProof 48 1 = .ok () ∧
+    validateStateProof exEnv (fun _ => 45427) ⟨32, exV.partCommit, 5, 16, 2 ^ 31, 4⟩ exProof 48 2 = .error (.crypto .sigInvalid) ∧
+    validateStateProof exEnv (fun _ => 45427) ⟨33, exV.partCommit, 5, 16, 2 ^ 31, 4⟩ exProof 48 1 = .error .notMultiple ∧
+    validateStateProof exEnv (fun _ => 45427) ⟨32, exV.partCommit, 9, 16, 2 ^ 31, 4⟩ exProof 40 1 = .error .insufficientWeight := by
+  decide
 
 end Props.C39
